@@ -31,6 +31,12 @@ OVERLAY_FILES = [
     "pkg/builder/local_build_executor.go",
 ]
 
+# Files whose `sync/atomic` import is redirected to pkg/verifsync/atomic (every
+# atomic operation becomes a scheduling point).
+ATOMIC_OVERLAY_FILES = [
+    "pkg/filesystem/pool/quota_enforcing_file_pool.go",
+]
+
 PROPS = {}
 for _f in sorted(glob.glob(os.path.join(VERIF, "harness", "*", "props.json"))):
     _c = json.load(open(_f))
@@ -38,6 +44,9 @@ for _f in sorted(glob.glob(os.path.join(VERIF, "harness", "*", "props.json"))):
     for _o in _c.get("overlay", []):
         if _o not in OVERLAY_FILES:
             OVERLAY_FILES.append(_o)
+    for _o in _c.get("overlay_atomic", []):
+        if _o not in ATOMIC_OVERLAY_FILES:
+            ATOMIC_OVERLAY_FILES.append(_o)
     for _p, _pc in _c.get("properties", {}).items():
         _e = PROPS.setdefault(_p, {"harnesses": []})
         if _pc.get("primary", True) and "technique" in _pc:
